@@ -346,9 +346,16 @@ def judge(case):
     if flags["bitmaps"] and "CBLC" in fout:
         # a renderer takes the first strike of the size it wants: bitmaps of one size spread over several strikes are, for
         # every glyph outside the first of them, as good as missing
-        ppems = [(s.bitmapSizeTable.ppemX, s.bitmapSizeTable.ppemY) for s in fout["CBLC"].strikes]
-        if len(set(ppems)) != len(ppems):
-            v.fail("bitmap-strikes", "several strikes of one size", {"ppems": ppems, "glyphs per strike": [len(sd) for sd in fout["CBDT"].strikeData]})
+        # (the tool writes one strike per run of consecutive glyph ids - C14's anchored mechanism - so strikes of one size are
+        # legitimate when the colour glyphs' ids have gaps; what must not happen is one run spread over several strikes)
+        by_size = {}
+        for s_, sd in zip(fout["CBLC"].strikes, fout["CBDT"].strikeData):
+            by_size.setdefault((s_.bitmapSizeTable.ppemX, s_.bitmapSizeTable.ppemY), []).append(sorted(fout.getGlyphID(n) for n in sd))
+        for size, groups in by_size.items():
+            gids = sorted(g for grp in groups for g in grp)
+            runs = 1 + sum(1 for a, b in zip(gids, gids[1:]) if b != a + 1) if gids else 0
+            if len(groups) > runs:
+                v.fail("bitmap-strikes", "a run of consecutive glyph ids spread over several strikes of one size", {"ppem": size, "strikes": groups, "runs": runs})
     if flags["keep_glyph_names"] or fin["post"].formatType == 2 and flags["keep_glyph_names"]:
         if fin["post"].formatType == 2:
             d = diff_sem(layout_sem(fin), layout_sem(fout))
